@@ -116,9 +116,9 @@ class OFXHeaderV1(OFXHeaderBase):
     # instead ``parse_header()`` strips whitespace from the start of the data.
     regex = re.compile(
         r"""\s*
-            OFXHEADER:\s*(?P<OFXHEADER>\d+)\s*
+            OFXHEADER:\s*(?P<OFXHEADER>[0-9]{1,3})\s*
             DATA:\s*(?P<DATA>[A-Z]+)\s*
-            VERSION:\s*(?P<VERSION>\d+)\s*
+            VERSION:\s*(?P<VERSION>[0-9]{1,3})\s*
             SECURITY:\s*(?P<SECURITY>[\w]+)\s*
             ENCODING:\s*(?P<ENCODING>[A-Z0-9-]+)\s*
             CHARSET:\s*(?P<CHARSET>[\w-]+)\s*
@@ -194,8 +194,8 @@ class OFXHeaderV2(OFXHeaderBase):
 
     regex = re.compile(
         r"""<\?OFX\s+
-                       OFXHEADER=([\"'])(?P<ofxheader>\d+)\1\s+
-                       VERSION=([\"'])(?P<version>\d+)\3\s+
+                       OFXHEADER=([\"'])(?P<ofxheader>[0-9]{1,3})\1\s+
+                       VERSION=([\"'])(?P<version>[0-9]{1,3})\3\s+
                        SECURITY=([\"'])(?P<security>[\w]+)\5\s+
                        OLDFILEUID=([\"'])(?P<oldfileuid>[\w-]+)\7\s+
                        NEWFILEUID=([\"'])(?P<newfileuid>[\w-]+)\9\s*
